@@ -77,7 +77,10 @@ func (tx *Tx) newKey(m *metadata, key string, newFn func() ds.Value) *metadata {
 		m.key = ds.NewKey(key, 0)
 		m.setValue(value)
 		m.state |= KeyStateModified
-		tx.store.metadata.Set(key, m)
+		if old, replaced := tx.store.metadata.Set(key, m); replaced && old != m {
+			// a dead (expired) record is replaced: its storage entry goes with it
+			old.unpersist(tx.store.ss)
+		}
 		tx.store.mu.Unlock()
 		return m
 	}
@@ -86,7 +89,10 @@ func (tx *Tx) newKey(m *metadata, key string, newFn func() ds.Value) *metadata {
 
 func (tx *Tx) delKey(key string) {
 	tx.store.mu.Lock()
-	tx.store.metadata.Delete(key)
+	if m, deleted := tx.store.metadata.Delete(key); deleted {
+		// without this the deleted key comes back when the storage is opened again
+		m.unpersist(tx.store.ss)
+	}
 	tx.store.mu.Unlock()
 }
 
